@@ -1,9 +1,9 @@
 package rules
 
 import (
-	"go/types"
 	"fmt"
 	"go/constant"
+	"go/types"
 	"os"
 	"strings"
 
